@@ -49,3 +49,132 @@ def mesh_with_faces(B, fd, xf):
     me.xf = xf
     me.xc = me.calc_centers()
     return me
+
+
+# ----------------------------------------------------------------------------------------
+# 1D discretisation builder (both modes)
+NUMS_LINEAR = ['extrapol1', 'extrapol2', 'extrapol3', 'extrapolk', 'centered', 'fromm', 'quick']
+LIMITERS = ['minmod', 'vanalbada', 'vanleer', 'superbee']
+NUMS_ALL = NUMS_LINEAR + ['muscl:' + l for l in LIMITERS]
+FLUXES = {'convection': [None], 'burgers': [None], 'shallowwater': ['centered', 'rusanov', 'hll'],
+          'euler1d': ['centered', 'centeredmassflow', 'hlle', 'hllc'], 'nozzle': ['hlle', 'hllc']}
+
+
+def make_num(B, fd, name):
+    xn = fd.xnum
+    if name == 'extrapolk':
+        return xn.extrapolk(B.var('kappa', -1.0, 1.0))
+    if name.startswith('muscl:'):
+        return xn.muscl(getattr(xn, name.split(':')[1]))
+    return getattr(xn, name)()
+
+
+def make_model(B, fd, cfg):
+    m = cfg['model']
+    if m == 'convection':
+        a = B.var('aconv', -2.0, 2.0)
+        if cfg.get('speed') == 'pos':
+            B.assume(a > 0)
+        elif cfg.get('speed') == 'neg':
+            B.assume(a < 0)
+        return fd.convection.model(a)
+    if m == 'burgers':
+        return fd.burgers.model()
+    if m == 'shallowwater':
+        return fd.shallowwater.shallowwater1d(g=B.const(cfg.get('g', '981/100')))
+    if m == 'euler1d':
+        return fd.euler.euler1d(gamma=B.const(cfg.get('gamma', '2')))
+    if m == 'euler2d':
+        return fd.euler.euler2d(gamma=B.const(cfg.get('gamma', '2')))
+    raise KeyError(m)
+
+
+def make_mesh(B, fd, cfg, n):
+    kind = cfg.get('mesh', 'faces')
+    if kind == 'faces':
+        return mesh_with_faces(B, fd, mono_faces(B, n))
+    if kind == 'uniform':
+        return fd.mesh.unimesh(ncell=n, length=B.pos('len', 0.5, 3.0))
+    raise KeyError(kind)
+
+
+def make_state(B, model_name, model, n, tag='w', gamma=None, g=None):
+    """admissible primitive data + conservative data (through the real prim2cons)"""
+    if model_name in ('convection', 'burgers'):
+        q = B.vararray(tag + 'q', n)
+        return [q], [q]
+    if model_name == 'shallowwater':
+        h, u, c = sw_prim(B, tag, model.g, n)
+        prim = [h, u]
+        return prim, model.prim2cons(prim)
+    if model_name in ('euler1d', 'nozzle'):
+        rho, u, p, c = euler_prim(B, tag, model.gamma, n)
+        prim = [rho, u, p]
+        return prim, model.prim2cons(prim)
+    raise KeyError(model_name)
+
+
+def make_bc(B, cfg, model_name):
+    bc = cfg.get('bc', 'per')
+    if bc == 'per':
+        return {'type': 'per'}, {'type': 'per'}
+    if bc == 'sym':
+        return {'type': 'sym'}, {'type': 'sym'}
+    raise KeyError(bc)
+
+
+def build1d(B, cfg):
+    fd = B.fd
+    n = cfg.get('n', 4)
+    model = make_model(B, fd, cfg)
+    mesh = make_mesh(B, fd, cfg, n)
+    num = make_num(B, fd, cfg.get('num', 'extrapol1'))
+    bcL, bcR = make_bc(B, cfg, cfg['model'])
+    rhs = fd.modeldisc.fvm(model, mesh, num, numflux=cfg.get('flux'), bcL=bcL, bcR=bcR)
+    prim, cons = make_state(B, cfg['model'], model, n)
+    field = fd.field.fdata(model, mesh, cons)
+    return {'model': model, 'mesh': mesh, 'num': num, 'rhs': rhs, 'prim': prim, 'cons': cons, 'field': field, 'n': n}
+
+
+def cut(B, exprs, cut_arrays, prefix='F'):
+    """symbolic mode: replace every distinct term occurring in cut_arrays by a fresh variable inside
+    exprs (sound generalisation: a proof for arbitrary values of the cut terms covers the real ones);
+    concrete mode: identity"""
+    if not B.symbolic:
+        return list(exprs)
+    import numpy as _np
+    from vt import term as tm
+    from vt.sym import P, L
+    mp = {}
+    for a in cut_arrays:
+        for x in _np.asarray(a, dtype=object).flat:
+            t = L(x)
+            if t.op in ('const', 'var'):
+                continue
+            if t.id not in mp:
+                mp[t.id] = tm.var('%s!%d' % (prefix, len(mp)))
+    ts = [L(e) for e in exprs]
+    out = tm.subst(ts, mp)
+    B.case.info['cut_terms'] = B.case.info.get('cut_terms', 0) + len(mp)
+    return [P(t) for t in out]
+
+
+# ----------------------------------------------------------------------------------------
+# 2D builder
+def build2d(B, cfg):
+    fd = B.fd
+    nx, ny = cfg['nx'], cfg['ny']
+    model = fd.euler.euler2d(gamma=B.const(cfg.get('gamma', '2')))
+    mesh = fd.mesh2d.mesh2d(nx, ny, B.pos('lx', 0.5, 3.0), B.pos('ly', 0.5, 3.0))
+    num = fd.xnum.extrapol2d1() if cfg.get('num', 'extrapol2d1') == 'extrapol2d1' else \
+        fd.xnum.extrapol2dk(B.var('kappa', -1.0, 1.0) if cfg.get('kappa', 'sym') == 'sym' else B.const(cfg['kappa']))
+    bcs = cfg.get('bc2d', {'left': 'per', 'right': 'per', 'top': 'per', 'bottom': 'per'})
+    bclist = {k: ({'type': v} if isinstance(v, str) else dict(v)) for k, v in bcs.items()}
+    rhs = fd.modeldisc.fvm2dcart(model, mesh, num, bclist, numflux=cfg.get('flux', 'centered'))
+    n = nx * ny
+    rho, V, p, c = euler_prim(B, 'w', model.gamma, n, twod=True)
+    prim = [rho, V, p]
+    cons = model.prim2cons(prim)
+    field = fd.field.fdata(model, mesh, cons)
+    return {'model': model, 'mesh': mesh, 'num': num, 'rhs': rhs, 'prim': prim, 'cons': cons, 'field': field,
+            'n': n, 'nx': nx, 'ny': ny}
